@@ -80,9 +80,9 @@ func varintCases(r *rand.Rand, level int) {
 			}
 			if vc.big && level < 2 {
 				// quick tier: the batches of 8191..8193 records cost over a second each in the model;
-				// keep 8192 and 8193 for the protocol writer, 8193 for the Writer path and the legacy writer
+				// keep 8192 and 8193 for the protocol writer and 8193 for the Writer path (the legacy writers get 129 here, 8193 in thorough)
 				n := len(vc.recs)
-				if op == "wc" || n == 8191 || (n == 8192 && op != "wp") {
+				if op == "wc" || op == "wl" || n == 8191 || (n == 8192 && op != "wp") {
 					continue
 				}
 			}
